@@ -321,7 +321,13 @@ func c18Grid(quick bool) []string {
 		}
 	}
 	cs = append(cs, 999999999999999, 100000000000001, 123456789012345, 500000000000000, 250000000000001, 449999999999999)
-	es := []int{-15, -3, -2, -1, 0, 1, 2, 3, 15}
+	es := []int{-15, -12, -11, -10, -9, -6, -3, -2, -1, 0, 1, 2, 3, 6, 9, 10, 11, 12, 15}
+	if !quick {
+		es = nil
+		for e := -15; e <= 15; e++ {
+			es = append(es, e)
+		}
+	}
 	var out []string
 	seen := map[string]bool{}
 	add := func(lit string) {
